@@ -239,6 +239,14 @@ U = Universe()
 # asked for a hook ("no hook registered for this type" -- the usual strict `unstructure_fallback_factory`): generating a
 # hook for any type that reaches them fails until the user registers the missing hook
 STRICT_FB = (7003, 7004)
+# COMPOSE_FB = fallback factories whose hooks are BUILT OUT OF OTHER HOOKS: asked for a type, they look the hooks of its component
+# types up through the converter they were written for -- cached (7005) or with `cache_result=False` (7006) -- when the hook is
+# MADE (early binding), exactly as a registered hook factory does.  For the component structure see `comps_of` (plain classes
+# get two virtual components under such a factory: "every object carries an int id and an A payload").  In the model such a
+# factory is one more entry of the constructor's predicate list, LAST (lowest priority), with an always-true predicate:
+# `dispatch_without_caching` asks the fallback factory exactly when `FunctionDispatch.dispatch` found no entry.
+COMPOSE_FB = (7005, 7006)
+ALL_PID = 99     # the truth-table row of that always-true predicate
 
 
 class ConvCfg:
@@ -261,8 +269,9 @@ class ConvCfg:
 
     def name(self):
         return (f"{self.klass}{'/tuple' if self.tuple_strat else ''}"
-                f"{'/fbU-strict' if self.fb_un in STRICT_FB else '/fbU' if self.fb_un else ''}"
-                f"{'/fbS-strict' if self.fb_st in STRICT_FB else '/fbS' if self.fb_st else ''}{'' if self.detailed else '/fast'}")
+                f"{'/fbU-strict' if self.fb_un in STRICT_FB else '/fbU-composing' if self.fb_un in COMPOSE_FB else '/fbU' if self.fb_un else ''}"
+                f"{'/fbS-strict' if self.fb_st in STRICT_FB else '/fbS-composing' if self.fb_st in COMPOSE_FB else '/fbS' if self.fb_st else ''}"
+                f"{'' if self.detailed else '/fast'}")
 
     def opts(self):
         return self.name() + ("" if not self.extra else " " + json.dumps(self.extra, sort_keys=True))
@@ -387,6 +396,8 @@ def comps_of(cc: ConvCfg, d, key):
         return _rt(t.parts) if base_un else list(t.parts)
     if sh in ("list", "dict", "tuple", "htuple"):
         return _rt(t.parts) if base_un else list(t.parts)
+    if sh == "plain" and cc.fb(d) in COMPOSE_FB:
+        return [U.k("int"), U.k("A")]   # virtual components of plain classes under a composing fallback factory
     return []
 
 
@@ -417,6 +428,8 @@ def split(cc, d, key, v):
         return [k, x]
     if sh == "tuple":
         return [v[0], v[1]]
+    if sh == "plain" and comps_of(cc, d, key):
+        return [5, Impl.sample(cc, d, U.by_name["A"])]
     return []
 
 
@@ -620,6 +633,8 @@ class ModelCtx:
         """`others`: contexts of further converters of the same store (their late built-ins are added)."""
         mro = " ".join(f"({k} {' '.join(map(str, v))})" for k, v in U.mro.items() if v)
         holds = " ".join(f"({p} {' '.join(map(str, sorted(acc)))})" for p, (acc, _) in sorted(self.preds.items()))
+        if any(c.cc.fb(c.d) in COMPOSE_FB for c in (self, *others)):
+            holds += f" ({ALL_PID} {' '.join(str(t.key) for t in U.types)})"
         un = " ".join(str(t.key) for t in U.types if t.shape in ("union", "optional"))
         nt = " ".join(str(t.key) for t in U.types if t.shape == "newtype")
         lates = {i for c in (self, *others) for i, b in c.beh.items() if b.late}
@@ -652,8 +667,11 @@ class ModelCtx:
         for k, i in sorted(ctx.bid.items()):
             b = ctx.beh[i]
             ents.append(f"((exact {k}) {b.kind} {i} 1 {b.sub} {1 if b.direct else 0})")
+        fb = ctx.cc.fb(self.d)
+        if fb in COMPOSE_FB:   # a composing fallback factory = the last, always-true factory entry
+            ents.append(f"((tbl {ALL_PID}) factory {fb} 1 {'cached' if fb == COMPOSE_FB[0] else 'uncached'} 0)")
         single = " ".join(f"({ck} (builtin {i}))" for ck, i in ctx.single)
-        return f"({1 if self.d == ST else 0} {ctx.cc.fb(self.d)} ({single}) ({' '.join(ents)}))"
+        return f"({1 if self.d == ST else 0} {fb} ({single}) ({' '.join(ents)}))"
 
 
 def parse_hook(sx):
@@ -793,7 +811,18 @@ class Impl:
         self.opts0 = []     # options_snapshot of each converter when it entered the store
 
     # ---- construction
-    def fb_factory(self, d, fid):
+    def fb_factory(self, d, fid, box=None, cc=None):
+        if fid in COMPOSE_FB:
+            def composing(t):
+                key = U.key(t)
+                if key is None or excluded(cc, d, key):
+                    return self._made(d, fid, key, False, None, None)
+                conv = box[0]   # the converter this factory was written for (set right after construction)
+                get = conv.get_unstructure_hook if d == UN else conv.get_structure_hook
+                subs = [get(U.types[c].obj) if fid == COMPOSE_FB[0] else get(U.types[c].obj, cache_result=False)
+                        for c in comps_of(cc, d, key)]
+                return self._made(d, fid, key, False, cc, subs)
+            return composing
         if fid in STRICT_FB:
             def strict(t):
                 raise cattrs.errors.StructureHandlerNotFoundError(f"no hook registered for {t!r}", t)
@@ -806,10 +835,11 @@ class Impl:
         kw = {"detailed_validation": cc.detailed}
         if cc.tuple_strat:
             kw["unstruct_strat"] = UnstructureStrategy.AS_TUPLE
+        box = []
         if cc.fb_un:
-            kw["unstructure_fallback_factory"] = self.fb_factory(UN, cc.fb_un)
+            kw["unstructure_fallback_factory"] = self.fb_factory(UN, cc.fb_un, box, cc)
         if cc.fb_st:
-            kw["structure_fallback_factory"] = self.fb_factory(ST, cc.fb_st)
+            kw["structure_fallback_factory"] = self.fb_factory(ST, cc.fb_st, box, cc)
         kw.update(decode_options(cc.extra))
         if cc.klass == "Converter":
             c = Converter(**kw)
@@ -820,6 +850,7 @@ class Impl:
             c = make_converter(**kw)
         else:
             raise ValueError(cc.klass)
+        box.append(c)
         return self.adopt(c, cc)
 
     def adopt(self, conv, cc):
@@ -866,15 +897,7 @@ class Impl:
         impl = self
 
         def made(key, wc, cc, subs):
-            cs = comps_of(cc, d, key) if subs is not None else []
-
-            def run(v):
-                ch = []
-                if subs is not None:
-                    for sub, c, part in zip(subs, cs, split(cc, d, key, v)):
-                        ch.append(("skip",) if part is SKIP else canon(impl.call_hook(d, sub, part, U.types[c].obj)))
-                return Tagged(("F", tag, key, wc, ch))
-            return (lambda v: run(v)) if d == UN else (lambda v, _: run(v))
+            return impl._made(d, tag, key, wc, cc, subs)
 
         def core(t, converter=NOCONV, extra=False):
             key = U.key(t)
@@ -895,6 +918,18 @@ class Impl:
         if shape is None:
             shape = "t,c" if extended else "t"
         return shapes.SHAPES[shape].build(core)
+
+    def _made(self, d, tag, key, wc, cc, subs):
+        """the hook a factory (tag) makes for type `key` out of the hooks `subs` of its component types"""
+        cs = comps_of(cc, d, key) if subs is not None else []
+
+        def run(v):
+            ch = []
+            if subs is not None:
+                for sub, c, part in zip(subs, cs, split(cc, d, key, v)):
+                    ch.append(("skip",) if part is SKIP else canon(self.call_hook(d, sub, part, U.types[c].obj)))
+            return Tagged(("F", tag, key, wc, ch))
+        return (lambda v: run(v)) if d == UN else (lambda v, _: run(v))
 
     # ---- operations
     def do(self, op):
